@@ -275,7 +275,7 @@ def h8(ctx: Ctx) -> None:
 
 
 
-@rule("C03.H9", "necessary for the stop condition: the kind of an order (market / limit) is decided by value, so an order that is equal to a limit order is treated as one by the executability test and by the walk", "T13 lint over Market, OrderBook, Order, OrderKind", floor=40)
+@rule("C03.H9", "necessary for the stop condition: the kind of an order (market / limit) is decided by value, so an order that is equal to a limit order is treated as one by the executability test and by the walk", "T13 lint over Market, OrderBook, Order, OrderKind", floor=1)
 def h9(ctx: Ctx) -> None:
     from .events import check_identity_comparisons
 
